@@ -308,6 +308,61 @@ func init() {
 						}
 						// other MAC attribute values in place of the correct one
 						macOff := len(pre) + 4
+						// 20-byte values a sloppy comparison or a "compatibility" path could take for the right one: the
+						// same bit flipped in two 4-byte words (cancels in a word-wise XOR fold), two words exchanged, the
+						// MAC rotated by whole words, and HMACs over plausible other texts / with plausible other hashes
+						var others [][]byte
+						for wi := 0; wi < 5; wi++ {
+							for wj := wi + 1; wj < 5; wj++ {
+								for bit := 0; bit < 32; bit++ {
+									mm := append([]byte(nil), wantMAC...)
+									mm[wi*4+bit/8] ^= 0x80 >> uint(bit%8)
+									mm[wj*4+bit/8] ^= 0x80 >> uint(bit%8)
+									others = append(others, mm)
+								}
+								mm := append([]byte(nil), wantMAC...)
+								for q := 0; q < 4; q++ {
+									mm[wi*4+q], mm[wj*4+q] = mm[wj*4+q], mm[wi*4+q]
+								}
+								others = append(others, mm)
+							}
+						}
+						for rot := 4; rot < 20; rot += 4 {
+							others = append(others, append(append([]byte(nil), wantMAC[rot:]...), wantMAC[:rot]...))
+						}
+						padded := append([]byte(nil), span...)
+						for len(padded)%64 != 0 {
+							padded = append(padded, 0)
+						}
+						others = append(others,
+							ref.HMACSHA1(key, padded),                // RFC 3489: text zero-padded to a multiple of 64
+							ref.HMACSHA1(key, pre),                   // header length not yet adjusted
+							ref.HMACSHA1(key, wantRaw[:len(span)+4]), // text including the attribute header
+							ref.HMACSHA1(key, span[20:]),             // without the message header
+							ref.HMACSHA256(key, span)[:20],           // the RFC 8489 hash, truncated
+							ref.HMACSHA1(span, key),                  // arguments exchanged
+						)
+						if len(after) > 0 {
+							ls := append([]byte(nil), span...)
+							ls[2], ls[3] = signed[2], signed[3]
+							others = append(others, ref.HMACSHA1(key, ls)) // length of the whole message
+						}
+						for _, mac := range others {
+							if bytes.Equal(mac, wantMAC) {
+								continue
+							}
+							attrs := []ref.EncodeAttr{}
+							for i, a := range b0 {
+								attrs = append(attrs, ref.EncodeAttr{Type: a.T, Value: c04Value(a.T, a.L, i)})
+							}
+							attrs = append(attrs, ref.EncodeAttr{Type: 0x0008, Value: mac})
+							for i, a := range after {
+								attrs = append(attrs, ref.EncodeAttr{Type: a.T, Value: c04Value(a.T, a.L, 40+i)})
+							}
+							if !report(ref.Encode(0x0001, tid, attrs), key, "macvariant") {
+								return
+							}
+						}
 						for _, variant := range []int{19, 21, 24, 0, -1, -2, -3} {
 							var mac []byte
 							switch {
